@@ -1,4 +1,5 @@
 pub mod c02;
+pub mod c03;
 pub mod c04;
 pub mod c06;
 pub mod c11;
@@ -7,7 +8,7 @@ pub mod histchecks;
 use crate::frame::CheckDef;
 
 pub fn all() -> Vec<CheckDef> {
-    let mut v = vec![c02::def(), c04::def(), c06::def(), c11::def()];
+    let mut v = vec![c02::def(), c03::def(), c04::def(), c06::def(), c11::def()];
     v.extend(histchecks::defs());
     v.sort_by_key(|d| d.property);
     v
